@@ -167,7 +167,11 @@ func GenConfig(seed int64, family string) *Config {
 	if c.GateMaxDelay >= 30 {
 		c.GateTimeMs = pick(r, 0, 100, 400)
 	}
-	if r.IntN(4) == 0 {
+	ctlOdds := 4
+	if (c.Focus == "C10" || c.Focus == "C11" || c.Focus == "C12") && (family == "control" || family == "recover" || family == "force") {
+		ctlOdds = 2 // the control-plane properties spend half of their control-plane runs this way
+	}
+	if r.IntN(ctlOdds) == 0 {
 		// dense exploration of the control plane: few preemptions, each possibly long
 		c.GateScope = "control"
 		c.GatePermille = pick(r, 50, 150, 400)
